@@ -189,6 +189,14 @@ static int hx_posix_spawn(pid_t *pid, const char *path, const posix_spawn_file_a
 
 #define main echsd_main
 #include "echsd.c"
+
+/* obint_name() answers generated uids from one static buffer: keep copies (freed with the process) */
+static const char *hx_name(echs_toid_t o)
+{
+	const char *s = obint_name(o);
+	return s ? strdup(s) : "?";
+}
+
 #undef main
 
 /* ---------------------------------------------------------------- the stand-in event loop */
@@ -400,12 +408,17 @@ static void do_op(char *op)
 	} else if (!strcmp(a[0], "X") && n >= 3) {
 		child_exit(atoi(a[1]), atoi(a[2]));
 		drain_spawns(sp0);
+	} else if (!strcmp(a[0], "QZ")) {
+		/* the size of the table of tasks and the number of tasks in it (probe only, not modelled) */
+		size_t k = 0;
+		for (size_t i = 0; i < ztask_ht; i++) k += task_ht[i].oid != 0;
+		out("%zu/%zu", k, ztask_ht);
 	} else if (!strcmp(a[0], "QM")) {
 		/* the table with the tasks' limits: uid:owner:max_simul */
 		struct { const char *uid; unsigned owner; int ms; } r[4096]; int nr = 0;
 		for (size_t i = 0; i < ztask_ht && nr < 4096; i++) if (task_ht[i].oid) {
 			_task_t t = task_ht[i].t;
-			r[nr].uid = obint_name(task_ht[i].oid) ?: "?"; r[nr].owner = echs_task_owner(t->t); r[nr].ms = t->t->max_simul; nr++;
+			r[nr].uid = hx_name(task_ht[i].oid); r[nr].owner = echs_task_owner(t->t); r[nr].ms = t->t->max_simul; nr++;
 		}
 		for (int i = 0; i < nr; i++) for (int j = i + 1; j < nr; j++) if (strcmp(r[i].uid, r[j].uid) > 0) { __typeof(r[0]) x = r[i]; r[i] = r[j]; r[j] = x; }
 		for (int i = 0; i < nr; i++) out("%s%s:%u:%d", i ? "," : "", r[i].uid, r[i].owner, r[i].ms);
@@ -413,7 +426,7 @@ static void do_op(char *op)
 		struct { const char *uid; unsigned owner; uint64_t cur; size_t nrun, nsim; } r[4096]; int nr = 0;
 		for (size_t i = 0; i < ztask_ht && nr < 4096; i++) if (task_ht[i].oid) {
 			_task_t t = task_ht[i].t;
-			r[nr].uid = obint_name(task_ht[i].oid) ?: "?"; r[nr].owner = echs_task_owner(t->t);
+			r[nr].uid = hx_name(task_ht[i].oid); r[nr].owner = echs_task_owner(t->t);
 			r[nr].cur = t->cur.u; r[nr].nrun = t->nrun; r[nr].nsim = t->nsim; nr++;
 		}
 		for (int i = 0; i < nr; i++) for (int j = i + 1; j < nr; j++) if (strcmp(r[i].uid, r[j].uid) > 0) { __typeof(r[0]) t = r[i]; r[i] = r[j]; r[j] = t; }
